@@ -2,13 +2,16 @@
 
 Every combination of protocol version, session keyspace, answer to the re-PREPARE and answer to the
 re-sent EXECUTE is played on a real Session (prepared through Session.prepare); the frames the node
-received and the outcome are compared with the statement of the property.
+received and the outcome are compared with the statement of the property; every case is repeated with
+stream id 0 handed to each frame of the exchange in turn.  A second layer keeps two attempts of one
+request outstanding (speculative execution) and enumerates every order of answers and executor tasks:
+the PREPARE must go to the node that answered UNPREPARED.
 """
 import itertools
 
 from vt import reqworld
 from vt.world import wire
-from vt.core import Part
+from vt.core import Part, HarnessError
 
 META = {
     'level': 'model_checking',
@@ -16,11 +19,19 @@ META = {
     'technique': 'exhaustive enumeration of re-prepare histories on the real Session/ResponseFuture vs a reference of the expected frame sequence',
     'text': 'EXECUTE answered UNPREPARED, then the PREPARE answered by {same id, different id, error, connection lost, unexpected '
             'message}, then the re-sent EXECUTE answered by {rows, UNPREPARED again (second round), error}; protocol v4 and v5, with and without a '
-            'per-statement keyspace (v5: carried by PREPARE; v4: recorded on the statement object), session keyspace absent / equal / different; executor task order fixed. '
+            'per-statement keyspace (v5: carried by PREPARE; v4: recorded on the statement object), session keyspace absent / equal / different; executor task order fixed; '
+            'every such case once with fresh stream ids and once for each frame of the expected exchange with stream id 0 handed to that frame (the state of a '
+            'connection whose id queue has wrapped). '
             'Expected: PREPARE with identical query text (and the keyspace on v5) on the same node, then the original EXECUTE on that '
-            'node; on id mismatch (which is how a changed session keyspace shows) the request fails with that error and no further frame is sent for it.',
+            'node, each exactly once; on id mismatch (which is how a changed session keyspace shows) the request fails with that error and no further frame is sent for it.  '
+            'Speculative-execution layer: two nodes, one speculative attempt, each node has or has not lost the statement (a node answers '
+            'UNPREPARED until it has been sent the PREPARE), protocol v4 and v5; every interleaving of {speculative timer fires, a node answers a held frame, '
+            'a queued executor task runs (any queued task, not only the oldest)} is enumerated to quiescence: a PREPARE may only go to a node that '
+            'answered UNPREPARED (never more PREPAREs than UNPREPARED answers per node), every node that answered UNPREPARED while the request was open gets one, '
+            'an EXECUTE is repeated on a node only after that node answered PREPARED, the request ends with rows and completes once.',
     'note': 'A second UNPREPARED round is followed once more.  Connection loss during the re-prepare lets the request move to the next '
-            'node; only the frames on the first node are judged in that case.',
+            'node; only the frames on the first node are judged in that case.  In the speculative layer the PREPARE is always answered with the same id '
+            '(the other answers are covered by the single-attempt cases) and the client timeout does not fire.',
     'design_ref': 'C19',
 }
 
@@ -34,7 +45,7 @@ def prepared_body(v, qid):
     return wire.result_prepared(qid, [('k', wire.T_INT)], [('v', wire.T_INT)], v, pk_indexes=(0,), ks='ks1', table='t')
 
 
-def play(pv, session_ks, prep, exe, stmt_ks=None):
+def play(pv, session_ks, prep, exe, stmt_ks=None, id0=None):
     st = reqworld.ReqWorld(dict(hosts=2, protocol_version=pv, timeout=50.0, keyspace=None))
     try:
         srv = st.server
@@ -63,6 +74,9 @@ def play(pv, session_ks, prep, exe, stmt_ks=None):
         srv.hold = st._hold
         st.w.manual = True
         mark = len(srv.received)
+        if id0 is not None:
+            # the id0-th frame sent on each connection from now on gets stream id 0
+            st.place_id0(id0)
         f = st.session.execute_async(ps.bind([1]))
         from vt.reqworld import Observer
         obs = Observer(f, st.w)
@@ -113,18 +127,19 @@ def play(pv, session_ks, prep, exe, stmt_ks=None):
             answer_first('rows' if exe in ('rows', 'unprepared_again') else 'invalid')
             break
         drain()
-        frames = []
+        frames, streams = [], []
         for vid, stream, req in srv.received[mark:]:
             addr = st.w.conns[vid].endpoint.address
             if req['op'] in ('PREPARE', 'EXECUTE'):
                 frames.append((addr, req['op'], req.get('query'), req.get('keyspace'), req.get('query_id')))
+                streams.append(stream)
         if not f._event.is_set():
             out = 'open'
         elif f._final_exception is not None:
             out = type(f._final_exception).__name__
         else:
             out = 'rows'
-        return frames, out, obs.n, len(st.pending())
+        return frames, out, obs.n, len(st.pending()), streams
     finally:
         st.close()
 
@@ -157,51 +172,254 @@ def reference(pv, session_ks, prep, exe, stmt_ks=None):
     return frames, 'rows' if exe == 'rows' else 'InvalidRequest'
 
 
+def judge_linear(part, case_t, evidence=True):
+    """-> [(fingerprint, what, case)] for one single-attempt case"""
+    pv, sks, prep, exe, stks, id0 = case_t
+    frames, out, ncb, left, streams = play(pv, sks, prep, exe, stks, id0)
+    ref_frames, ref_out = reference(pv, sks, prep, exe, stks)
+    case = {'pv': pv, 'session_keyspace': sks, 'prepare_answer': prep, 'execute_answer': exe, 'statement_keyspace': stks, 'id0': id0}
+    first = [fr for fr in frames if fr[0] == '10.0.0.1']
+    if evidence:
+        part.count('evaluations')
+        part.outcome((out, len(first)))
+        part.mark_nontrivial(repr((pv, sks, prep, exe, stks, id0)))
+        part.sample(dict(case, frames=[list(map(str, fr)) for fr in frames], outcome=out), limit=2)
+    if id0 is not None:
+        if evidence:
+            part.count('stream_id_0_cases')
+        # the harness must really have put stream id 0 on the frame it names
+        if id0 < len(first) and first == ref_frames[:len(first)]:
+            on_first = [sid for fr, sid in zip(frames, streams) if fr[0] == '10.0.0.1']
+            if on_first[id0] != 0:
+                raise HarnessError('frame %d of %r went out with stream id %r, not 0' % (id0, case, on_first[id0]))
+            if evidence:
+                part.count('frames_sent_with_stream_id_0')
+    v = []
+    if first != ref_frames:
+        if len(first) > len(ref_frames) and first[:len(ref_frames)] == ref_frames:
+            kind = 'sent-after-failure' if ref_out not in ('rows', None) else 'extra-frame'
+            if ref_out == 'ValueError':
+                kind = 'sent-despite-keyspace-mismatch'
+        elif [fr[1] for fr in first] == [fr[1] for fr in ref_frames]:
+            kind = 'prepare-content'
+        else:
+            kind = 'sequence'
+        v.append(('C19/frames/%s/%s' % (kind, prep), 'node saw %r, expected %r for %r' % (first, ref_frames, case), case))
+    if ref_out is not None and out != ref_out:
+        v.append(('C19/outcome/%s' % ref_out, 'outcome %r, expected %r for %r' % (out, ref_out, case), case))
+    other = [fr for fr in frames if fr[0] != '10.0.0.1']
+    if ref_out not in ('rows', None) and other:
+        v.append(('C19/frames/other-node-after-failure/%s' % prep, 'frames went to another node after the request had failed: %r for %r' % (frames, case), case))
+    if ref_out == 'rows' and other:
+        v.append(('C19/frames/other-node-although-reprepared/%s' % prep,
+                  'the node was re-prepared and got the EXECUTE again, yet frames also went to another node: %r for %r' % (frames, case), case))
+    if ncb > 1:
+        v.append(('C19/completed-twice', 'callbacks ran %d times for %r' % (ncb, case), case))
+    return v
+
+
 def run_chunk(cases):
     part = Part()
-    for pv, sks, prep, exe, stks in cases:
-        part.count('evaluations')
-        frames, out, ncb, left = play(pv, sks, prep, exe, stks)
-        ref_frames, ref_out = reference(pv, sks, prep, exe, stks)
-        case = {'pv': pv, 'session_keyspace': sks, 'prepare_answer': prep, 'execute_answer': exe, 'statement_keyspace': stks}
-        first = [fr for fr in frames if fr[0] == '10.0.0.1']
-        part.outcome((out, len(first)))
-        part.mark_nontrivial(repr((pv, sks, prep, exe, stks)))
-        part.sample(dict(case, frames=[list(map(str, fr)) for fr in frames], outcome=out), limit=2)
-        if first != ref_frames:
-            if len(first) > len(ref_frames) and first[:len(ref_frames)] == ref_frames:
-                kind = 'sent-after-failure' if ref_out not in ('rows', None) else 'extra-frame'
-                if ref_out == 'ValueError':
-                    kind = 'sent-despite-keyspace-mismatch'
-            elif [fr[1] for fr in first] == [fr[1] for fr in ref_frames]:
-                kind = 'prepare-content'
-            else:
-                kind = 'sequence'
-            part.violation('C19/frames/%s/%s' % (kind, prep), 'node saw %r, expected %r for %r' % (first, ref_frames, case), case)
-        if ref_out is not None and out != ref_out:
-            part.violation('C19/outcome/%s' % ref_out, 'outcome %r, expected %r for %r' % (out, ref_out, case), case)
-        if ref_out not in ('rows', None) and [fr for fr in frames if fr[0] != '10.0.0.1']:
-            part.violation('C19/frames/other-node-after-failure/%s' % prep, 'frames went to another node after the request had failed: %r for %r' % (frames, case), case)
-        if ncb > 1:
-            part.violation('C19/completed-twice', 'callbacks ran %d times for %r' % (ncb, case), case)
+    for case_t in cases:
+        if case_t[0] == 'spec':
+            spec_subtree(part, *case_t[1:])
+            continue
+        v = judge_linear(part, case_t)
+        if v and case_t[5] is not None:
+            # a failure that the same case shows with fresh stream ids too keeps its plain fingerprint
+            plain = set(fp for fp, _, _ in judge_linear(part, case_t[:5] + (None,), evidence=False))
+            v = [(fp if fp in plain else fp + '/stream-id-0', what, case) for fp, what, case in v]
+        for fp, what, case in v:
+            part.violation(fp, what, case)
     return part
 
 
+# ---------------------------------------------------------------------------------------------------------------
+# speculative executions: two attempts of one request outstanding, responses and executor tasks in every order
+A, B = '10.0.0.1', '10.0.0.2'
+SPEC_SCRIPTS = ['UU', 'UR', 'RU', 'RR']      # has node A / node B lost the statement (U) or not (R)
+ROOT_WIDTHS = (2, 2, 2)                      # the first three choices are split over the workers
+MAX_STEPS = 40
+
+
+def spec_history(pv, script, prefix):
+    """Run one history: choices beyond `prefix` are 0.  -> (taken, widths, log, outcome) or None when prefix names a
+    choice that does not exist.  log = chronological [('send', node, op, query) | ('answer', node, kind, request open?)]"""
+    st = reqworld.ReqWorld(dict(hosts=2, protocol_version=pv, timeout=50.0, keyspace=None, spec=1, spec_delay=1.0))
+    try:
+        srv, w = st.server, st.w
+        srv.hold = lambda c, r: False
+        w.manual = False
+        srv.on_request = lambda server, conn, stream, req: \
+            (wire.OP_RESULT, prepared_body(req['version'], QID)) if req['op'] == 'PREPARE' else None
+        ps = st.session.prepare(QUERY)
+        ps.is_idempotent = True          # speculative executions are only made for idempotent statements
+        w.settle()
+        srv.on_request = None
+        srv.hold = st._hold
+        w.manual = True
+        seen = len(srv.received)
+        knows = {A: script[0] == 'R', B: script[1] == 'R'}
+        f = st.session.execute_async(ps.bind([1]))
+        obs = reqworld.Observer(f, w)
+        log, taken, widths = [], [], []
+
+        def note_sent():
+            nonlocal seen
+            for vid, stream, req in srv.received[seen:]:
+                log.append(('send', w.conns[vid].endpoint.address, req['op'], req.get('query')))
+            seen = len(srv.received)
+        note_sent()
+        while True:
+            spec = [t for t in w.live_timers() if 'speculative' in (getattr(t.callback, '__name__', '') or '')]
+            pend = st.pending()
+            evs = [('spec',)] * bool(spec) + [('answer', i) for i in range(len(pend))] + [('task', i) for i in range(len(w.tasks))]
+            if not evs:
+                break
+            if len(taken) >= MAX_STEPS:
+                return taken, widths, log, 'no-quiescence', obs.n
+            c = prefix[len(taken)] if len(taken) < len(prefix) else 0
+            if c >= len(evs):
+                return None
+            widths.append(len(evs))
+            taken.append(c)
+            ev = evs[c]
+            if ev[0] == 'spec':
+                log.append(('spec',))
+                w.fire_timer(spec[0])
+            elif ev[0] == 'task':
+                log.append(('task', w.tasks[ev[1]][4]))
+                w.run_task(ev[1])
+            else:
+                p = pend[ev[1]]
+                node = p.conn.endpoint.address
+                is_open = not f._event.is_set()
+                if p.req['op'] == 'PREPARE':
+                    knows[node] = True
+                    log.append(('answer', node, 'PREPARED', is_open))
+                    srv.respond(p, wire.OP_RESULT, prepared_body(pv, QID), deliver=True)
+                elif knows[node]:
+                    log.append(('answer', node, 'ROWS', is_open))
+                    st.respond(ev[1], 'rows')
+                else:
+                    log.append(('answer', node, 'UNPREPARED', is_open))
+                    st.respond(ev[1], 'unprepared', query_id=QID)
+            w.deliver_outbox()
+            note_sent()
+        if len(prefix) > len(taken) and any(prefix[len(taken):]):
+            return None
+        if not f._event.is_set():
+            out = 'open'
+        elif f._final_exception is not None:
+            out = type(f._final_exception).__name__
+        else:
+            out = 'rows'
+        return taken, widths, log, out, obs.n
+    finally:
+        st.close()
+
+
+def judge_spec(part, case, log, out, ncb):
+    sent = {A: {'PREPARE': 0, 'EXECUTE': 0}, B: {'PREPARE': 0, 'EXECUTE': 0}}
+    got = {A: {'UNPREPARED': 0, 'PREPARED': 0, 'ROWS': 0, 'open-UNPREPARED': 0}, B: {'UNPREPARED': 0, 'PREPARED': 0, 'ROWS': 0, 'open-UNPREPARED': 0}}
+    name = {A: 'A', B: 'B'}
+    for e in log:
+        if e[0] == 'answer':
+            got[e[1]][e[2]] += 1
+            if e[2] == 'UNPREPARED' and e[3]:
+                got[e[1]]['open-UNPREPARED'] += 1
+        elif e[0] == 'send' and e[2] in ('PREPARE', 'EXECUTE'):
+            node = e[1]
+            sent[node][e[2]] += 1
+            if e[2] == 'PREPARE':
+                if e[3] != QUERY:
+                    part.violation('C19/spec/prepare-content', 'PREPARE carried %r for %r: %r' % (e[3], case, log), case)
+                if sent[node]['PREPARE'] > got[node]['UNPREPARED']:
+                    part.violation('C19/spec/prepare-to-node-that-did-not-answer-unprepared',
+                                   'PREPARE number %d went to node %s, which had answered UNPREPARED %d times; %r: %r'
+                                   % (sent[node]['PREPARE'], name[node], got[node]['UNPREPARED'], case, log), case)
+            elif sent[node]['EXECUTE'] > 1 + got[node]['PREPARED']:
+                part.violation('C19/spec/execute-repeated-without-prepared',
+                               'EXECUTE number %d went to node %s, which had answered PREPARED %d times; %r: %r'
+                               % (sent[node]['EXECUTE'], name[node], got[node]['PREPARED'], case, log), case)
+    for node in (A, B):
+        if sent[node]['PREPARE'] < got[node]['open-UNPREPARED']:
+            part.violation('C19/spec/unprepared-node-not-prepared',
+                           'node %s answered UNPREPARED %d times while the request was open and was sent %d PREPAREs; %r: %r'
+                           % (name[node], got[node]['open-UNPREPARED'], sent[node]['PREPARE'], case, log), case)
+    if out != 'rows':
+        part.violation('C19/spec/outcome', 'outcome %r, expected rows for %r: %r' % (out, case, log), case)
+    if ncb > 1:
+        part.violation('C19/spec/completed-twice', 'callbacks ran %d times for %r' % (ncb, case), case)
+
+
+def spec_subtree(part, pv, script, root):
+    """Every history of `script` whose first choices are `root` (depth-first over choice prefixes, one run per history)."""
+    stack = [list(root)]
+    while stack:
+        prefix = stack.pop()
+        r = spec_history(pv, script, prefix)
+        if r is None:
+            if len(prefix) > len(root):
+                raise HarnessError('choice prefix %r of %r does not replay' % (prefix, script))
+            continue
+        taken, widths, log, out, ncb = r
+        for i, wd in enumerate(widths[:len(ROOT_WIDTHS)]):
+            if wd > ROOT_WIDTHS[i]:
+                raise HarnessError('step %d of %r offers %d events, the split over workers assumes <= %d' % (i, taken, wd, ROOT_WIDTHS[i]))
+        part.count('evaluations')
+        part.count('spec_histories')
+        part.count('spec_steps', len(taken))
+        case = {'spec': True, 'pv': pv, 'script': script, 'choices': list(taken)}
+        both = sum(1 for e in log if e[0] == 'spec')
+        reordered = any(e[0] == 'task' for e in log) and both
+        part.outcome(('spec', script, out, 'two-attempts' if both else 'one-attempt'))
+        if reordered:
+            part.mark_nontrivial(repr(('spec', pv, script, tuple(taken))))
+        if script == 'UU' and both:
+            part.sample(dict(case, log=[list(map(str, e)) for e in log], outcome=out), limit=1)
+        judge_spec(part, case, log, out, ncb)
+        for i in range(max(len(prefix), len(root)), len(widths)):
+            for c in range(1, widths[i]):
+                stack.append(taken[:i] + [c])
+
+
 def run(ctx):
-    cases = [(pv, sks, p, e, k) for pv in (4, 5) for sks in (None, 'ks1', 'ks2') for p in PREP_ANSWERS for e in EXEC_ANSWERS
-             for k in (None, 'ks1')]
+    cases = []
+    for pv in (4, 5):
+        for sks in (None, 'ks1', 'ks2'):
+            for p in PREP_ANSWERS:
+                for e in EXEC_ANSWERS:
+                    for k in (None, 'ks1'):
+                        nframes = len(reference(pv, sks, p, e, k)[0])
+                        cases += [(pv, sks, p, e, k, id0) for id0 in [None] + list(range(nframes))]
+    linear = len(cases)
+    for pv in (4, 5):
+        for script in SPEC_SCRIPTS:
+            cases += [('spec', pv, script, root) for root in itertools.product(*[range(n) for n in ROOT_WIDTHS])]
     cases = ctx.rotate(cases)
-    n = min(len(cases), ctx.nproc * 2)
+    n = min(len(cases), ctx.nproc * 4)
     for part in ctx.pmap(run_chunk, [cases[i::n] for i in range(n) if cases[i::n]]):
         ctx.merge(part)
-    ctx.count('states', len(cases))
-    ctx.count('transitions', len(cases) * 4)
-    ctx.cov['rule'] = 'protocol version x session keyspace x PREPARE answer x EXECUTE answer enumerated completely; every case is non-trivial'
+    ctx.count('states', linear + ctx.counters.get('spec_histories', 0))
+    ctx.count('transitions', linear * 4 + ctx.counters.get('spec_steps', 0))
+    ctx.cov['rule'] = ('protocol version x session keyspace x PREPARE answer x EXECUTE answer x position of stream id 0 enumerated completely '
+                       '(every case is non-trivial); speculative layer: every maximal interleaving of timer / answers / executor tasks for '
+                       'each of the four lost-statement scripts (counter spec_histories), non-trivial = both attempts outstanding and at '
+                       'least one executor task run')
     ctx.cov['exhaustive'] = True
 
 
 def replay(ctx, data):
-    part = run_chunk([(data['pv'], data['session_keyspace'], data['prepare_answer'], data['execute_answer'], data.get('statement_keyspace'))])
+    if data.get('spec'):
+        part = Part()
+        r = spec_history(data['pv'], data['script'], data['choices'])
+        if r is None:
+            raise HarnessError('recorded choices %r do not replay' % (data['choices'],))
+        judge_spec(part, data, r[2], r[3], r[4])
+    else:
+        part = run_chunk([(data['pv'], data['session_keyspace'], data['prepare_answer'], data['execute_answer'], data.get('statement_keyspace'),
+                           data.get('id0'))])
     for fp, what, _ in part.violations:
         print(fp, '::', what)
     return bool(part.violations)
